@@ -318,6 +318,31 @@ def r3_shipped_models(ctx):
                 if sh2 and all(norm(x.args[0]) == cps[0] for x in sh2) \
                         and c.args and norm(c.args[0]) == ps[0]:
                     ok = True
+        # every returned value is an array over the abscissa, never a bare
+        # scalar parameter
+        arrays = {ps[0]}
+        changed = True
+        while changed:
+            changed = False
+            for st in walk_no_nested(fn, False):
+                if isinstance(st, ast.Assign) and isinstance(
+                        st.targets[0], ast.Name) and \
+                        st.targets[0].id not in arrays and any(
+                            isinstance(x, ast.Name) and x.id in arrays
+                            for x in ast.walk(st.value)):
+                    arrays.add(st.targets[0].id)
+                    changed = True
+        for r in walk_no_nested(fn, False):
+            if isinstance(r, ast.Return) and r.value is not None:
+                names = {x.id for x in ast.walk(r.value)
+                         if isinstance(x, ast.Name)}
+                ctx.check(bool(names & arrays), r,
+                          f"{fn.name}: returns an array ({norm(r.value)[:40]})",
+                          f"{mod.relpath}: `return {norm(r.value)[:40]}` "
+                          f"hands back a scalar, not an array shaped like "
+                          f"the abscissa: the direction-agnostic wrapper "
+                          f"indexes the result ([::-1]) and fails, or "
+                          f"broadcasting hides a result of the wrong shape")
         ctx.check(bool(ok), fn, f"{fn.name}: result shaped like the abscissa",
                   "the result array is not shaped like the abscissa")
 
